@@ -626,7 +626,7 @@ def execute(sc, ctx):
         gctx = "group-config-append-with-defaults-off" if "_nodef" in sc["method"] and any(s_[0] == "gcfg" and any(k.endswith("+") for k in flatten(s_[1])) for s_ in argv_sources(sc, cwd)) else "-"
         if o.kind != "ret":
             why = "append-key-of-group-config-not-resolved" if "does not accept nested key" in (o.text or "") and "+'" in (o.text or "") else "other"
-            ctx.violation("fold-mismatch", {"model": "parse-failed", "exc": o.brief(), "why": why, "ctx": gctx}, "all sources are well-formed, yet %s failed: %s %s" % (sc["method"], o.brief(), (o.text or o.stderr)[:400]))
+            ctx.violation("fold-mismatch", dict({"model": "parse-failed", "exc": o.brief()}, **({"why": why} if why != "other" else {}), **({"ctx": gctx} if gctx != "-" else {})), "all sources are well-formed, yet %s failed: %s %s" % (sc["method"], o.brief(), (o.text or o.stderr)[:400]))
             return
         got = {k: _plain(o.value.get(k)) for k in KEYS}
         bad = [k for k in KEYS if got[k] != exp[k]]
@@ -650,7 +650,7 @@ def execute(sc, ctx):
         k0 = bad[0]
         ctx.violation(
             "fold-mismatch",
-            {"model": model, "key": key_kind(k0), "ctx": gctx},
+            dict({"model": model, "key": key_kind(k0)}, **({"ctx": gctx} if gctx != "-" else {})),
             "%s: key %s = %r, reference fold says %r (sources touching it: %s); counter-model: %s; all differing keys: %s" % (sc["method"], k0, got[k0], exp[k0], sorted(touched.get(k0, [])), model, bad),
         )
 
